@@ -52,7 +52,7 @@ claim("C04", "other",
       "trusted: sa/absint.py interpreter, sa/exprsem.py semantics, lattice oracle; 2 known findings (upcast(downcast), divide by infinite constant)",
       "abstract interpretation of the rule source + finite-model checking of extracted rewrites; literal-table audit", "DESIGN.md §3/C04")
 claim("C08", "other",
-      "Decides, for every kind with a NumPy template and every tuple of operand dtypes over float16/32/64, complex64/128, bool (quick: homogeneous and real/complex pairings; thorough: all mixes), that the static type obtained by abstract interpretation of Expr.get_type/typesystem.Type equals the dtype NumPy's promotion rules give the parsed template; that constants are cast unconditionally to the static type of their like; that debug assertions are wired to the same expression's type. Value-dependent dtypes are not decided.",
+      "Decides, for every kind with a NumPy template and every tuple of operand dtypes over float16/32/64, complex64/128, bool (all mixes, both tiers), that the static type obtained by abstract interpretation of Expr.get_type/typesystem.Type equals the dtype NumPy's promotion rules give the parsed template; that constants are cast unconditionally to the static type of their like; that debug assertions are wired to the same expression's type. Value-dependent dtypes are not decided.",
       "trusted: NumPy promotion oracle (NEP 50 on numpy scalars) in rules/C08.py, sa/absint.py; sub-expressions compose by induction over operand types",
       "abstract interpretation of the typing rules + table comparison with a promotion oracle", "DESIGN.md §3/C08")
 claim("C03", "proof",
